@@ -71,6 +71,7 @@ type bxView struct {
 	base     ast.Expr
 	lo       string
 	mem, hdr int
+	carried  bool // the loop being translated writes through this view only: the base gets it back after the loop
 }
 
 type bxTr struct {
@@ -728,14 +729,14 @@ func (f *bxFn) assign(st *ast.AssignStmt, d int) {
 			if f.rootVar(r.X) != nil {
 				t, lo := f.sliceExpr(r, d)
 				f.assignTo(id, t, d)
-				f.views[o] = &bxView{r.X, lo, f.mem, f.hdr}
+				f.views[o] = &bxView{base: r.X, lo: lo, mem: f.mem, hdr: f.hdr}
 				return
 			}
 			f.opaque[o] = true
 		case *ast.Ident, *ast.SelectorExpr:
 			if tv := f.info().Types[rhs]; !tv.IsNil() && f.rootVar(rhs) != nil {
 				f.assignTo(id, f.expr(rhs, d), d)
-				f.views[o] = &bxView{rhs, "0", f.mem, f.hdr}
+				f.views[o] = &bxView{base: rhs, lo: "0", mem: f.mem, hdr: f.hdr}
 				return
 			}
 		case *ast.CallExpr:
@@ -950,6 +951,33 @@ func (f *bxFn) boundedFuel(st *ast.ForStmt) (int64, bool) {
 	return n, true
 }
 
+// is the view `o` the only slice the loop writes through, reads or assigns (apart from itself)?
+func (f *bxFn) onlySliceOf(loop ast.Node, o types.Object, w *bxView) bool {
+	ok, used := true, false
+	ast.Inspect(loop, func(n ast.Node) bool {
+		e, isExpr := n.(ast.Expr)
+		if !isExpr || !ok {
+			return ok
+		}
+		if tv, has := f.info().Types[e]; !has || tv.IsNil() || tv.Value != nil {
+			return true
+		}
+		if k, _ := f.t.kind(f.info().TypeOf(e)); k != bxSl && k != bxSlL {
+			return true
+		}
+		if v := f.rootVar(e); v != nil && types.Object(v) == o {
+			used = true
+			return false
+		}
+		if _, isCall := e.(*ast.CallExpr); isCall {
+			return true
+		}
+		ok = false
+		return false
+	})
+	return ok && used
+}
+
 // emits the loop function and the code that runs it; `first` = the pattern line(s) up to the body
 func (f *bxFn) loopDef(at ast.Node, mods, ros []*types.Var, fuelLoop bool, listTy string, body func(d int, self string, done string), d int, start string, k func(d int)) {
 	hasRet := jumps(at)
@@ -975,8 +1003,17 @@ func (f *bxFn) loopDef(at ast.Node, mods, ros []*types.Var, fuelLoop bool, listT
 	if len(modTys) > 1 {
 		sigma = "(" + strings.Join(modTys, " × ") + ")"
 	}
-	f.mem, f.hdr = f.mem+1, f.hdr+1 // no alias taken outside a loop is used inside it, and the other way round
-	defer func() { f.mem, f.hdr = f.mem+1, f.hdr+1 }()
+	// no alias taken outside a loop is used inside it, and the other way round — except a view that is the ONLY slice the
+	// loop touches (`buf = p.b[a:b]; for … { rd.Read(buf[i:]) }`): it is a variable of the loop, its base gets it back after
+	f.mem, f.hdr = f.mem+1, f.hdr+1
+	var carried []types.Object
+	for o, w := range f.views {
+		if f.onlySliceOf(at, o, w) {
+			w.carried, w.mem, w.hdr = true, f.mem, f.hdr
+			carried = append(carried, o)
+		}
+	}
+	sort.Slice(carried, func(i, j int) bool { return carried[i].Pos() < carried[j].Pos() })
 	if !seen { // the code after an `if` is duplicated into its branches: a loop in it is defined once
 		saveLines, saveIn, saveK := f.lines, f.inLoop, f.loopK
 		f.lines, f.inLoop = nil, true
@@ -998,12 +1035,25 @@ func (f *bxFn) loopDef(at ast.Node, mods, ros []*types.Var, fuelLoop bool, listT
 	}
 	t := f.tmp()
 	f.emit(d, "let %s ← %s %s %s", t, self, start, strings.Join(modNames, " "))
+	f.mem, f.hdr = f.mem+1, f.hdr+1
+	flush := func(d int) {
+		for _, o := range carried {
+			w := f.views[o]
+			w.carried = false
+			f.assignTo(w.base, fmt.Sprintf("putBack %s %s %s", atom(f.expr(w.base, d)), atom(w.lo), atom(f.nameOf(o))), d)
+			w.mem, w.hdr = f.mem, f.hdr
+		}
+	}
 	if !hasRet { // a loop without `return` yields the variables it assigns
 		for i, m := range modNames {
 			f.emit(d, "let %s := %s", m, proj(t, i, len(modNames)))
 		}
+		flush(d)
 		k(d)
 		return
+	}
+	if len(carried) > 0 {
+		f.fail(at, "a loop that returns writes through an alias")
 	}
 	f.emit(d, "match %s with", t)
 	if f.inLoop {
@@ -1409,6 +1459,10 @@ func (f *bxFn) writeBack(e ast.Expr, nv string, d int) {
 	if w == nil {
 		return
 	}
+	if w.carried {
+		w.mem, w.hdr = f.mem, f.hdr
+		return
+	}
 	if w.mem != f.mem-1 || w.hdr != f.hdr-1 {
 		f.fail(e, "write through %s: %s may have changed since it was taken", id.Name, f.src(w.base))
 	}
@@ -1458,6 +1512,11 @@ func (f *bxFn) call(call *ast.CallExpr, d int) []string {
 		t := f.tmp()
 		f.emit(d, "let %s ← dirtmakeBytes (O %d) %s %s", t, f.t.siteOf(call), arg(0), arg(1))
 		return []string{t}
+	case "?Put":
+		if sel, ok := call.Fun.(*ast.SelectorExpr); ok && strings.HasSuffix(f.info().TypeOf(sel.X).String(), "sync.Pool") {
+			return nil // (*sync.Pool).Put: ownership only, like mcache.Free
+		}
+		f.fail(call, "call of Put")
 	case "mcache.Free":
 		f.emit(d, "let _ := mcacheFree %s", arg(0))
 		return nil
@@ -1575,7 +1634,7 @@ func (t *bxTr) translate(lean string, fd *ast.FuncDecl) (text string, why string
 	if fd.Recv != nil {
 		rn = "(" + strings.TrimSpace(f.src(fd.Recv.List[0].Type)) + ")."
 	}
-	f.emit(0, "/-- bufiox %s%s (%s:%d) -/", rn, fd.Name.Name, filepath.Base(pos.Filename), pos.Line)
+	f.emit(0, "/-- %s %s%s (%s:%d) -/", t.pk.Types.Name(), rn, fd.Name.Name, filepath.Base(pos.Filename), pos.Line)
 	f.emit(0, "def %s%s%s %s : GM %s := do", lean, f.tparams(), idecl, strings.Join(ps, " "), atom(f.retTy))
 	for i := 0; i < f.sig.Results().Len(); i++ {
 		if r := f.sig.Results().At(i); r.Name() != "" && r.Name() != "_" {
@@ -1587,18 +1646,32 @@ func (t *bxTr) translate(lean string, fd *ast.FuncDecl) (text string, why string
 	return strings.Join(f.loops, "\n") + strings.Join(f.lines, "\n") + "\n", ""
 }
 
+// the third back end of the generic skip decoder (protocol/thrift/skipdecoder.go): a buffer from mcache over an io.Reader
+var bxRSDSpecs = []bxSpec{
+	{"ReaderSkipDecoder", "Reset"}, {"ReaderSkipDecoder", "growSlow"}, {"ReaderSkipDecoder", "Grow"},
+	{"ReaderSkipDecoder", "SkipN"}, {"ReaderSkipDecoder", "Release"}, {"", "NewReaderSkipDecoder"},
+}
+
 func (c *ctx) emitBufiox(repo, path string) {
-	t := &bxTr{pk: c.pkg("bufiox"), fns: map[*types.Func]*bxFn{}, sdone: map[string]bool{}, sites: map[ast.Node]int{}, visiting: map[*types.Named]bool{}}
+	c.emitBx("bufiox", bxSpecs, path, "Verif.BufioxGen", "bufiox", "bufiox/defaultbuf.go")
+	if path != "-" {
+		path = filepath.Join(filepath.Dir(path), "BufioxRSD.lean")
+	}
+	c.emitBx("protocol/thrift", bxRSDSpecs, path, "Verif.BufioxRSDGen", "bufioxRSD", "ReaderSkipDecoder of protocol/thrift/skipdecoder.go")
+}
+
+func (c *ctx) emitBx(pkg string, specs []bxSpec, path, ns, tag, what string) {
+	t := &bxTr{pk: c.pkg(pkg), fns: map[*types.Func]*bxFn{}, sdone: map[string]bool{}, sites: map[ast.Node]int{}, visiting: map[*types.Named]bool{}}
 	var body bytes.Buffer
 	var ok, bad []string
-	for _, sp := range bxSpecs {
+	for _, sp := range specs {
 		lean := sp.name
 		if sp.recv != "" {
 			lean = sp.recv + "_" + sp.name
 		}
 		text, why := "", "function not found in the source"
 		if t.pk != nil {
-			if fd, _ := c.findFunc("bufiox", sp.recv, sp.name); fd != nil && fd.Body != nil {
+			if fd, _ := c.findFunc(pkg, sp.recv, sp.name); fd != nil && fd.Body != nil {
 				ns := len(t.structs)
 				text, why = t.translate(lean, fd)
 				for _, s := range t.structs[ns:] {
@@ -1616,13 +1689,17 @@ func (c *ctx) emitBufiox(repo, path string) {
 	}
 	var out bytes.Buffer
 	out.WriteString("/-\n  GENERATED by /verif/extract (bufiox.go) from the current working tree of the repository — do not edit.\n")
-	out.WriteString("  The methods of bufiox/defaultbuf.go translated from the typed AST into the Go semantics library Verif.GoSemCap\n")
-	out.WriteString("  (slices with capacity); Verif/Lemmas/Funcs/Bufiox{R,W}.lean prove them equal to Model/Reader.lean and\n  Model/Writer.lean. Regenerated on every run.\n-/\n")
-	out.WriteString("import Verif.Base.GoSemCap\nset_option linter.unusedVariables false\nnamespace Verif.BufioxGen\nopen Verif Verif.GoSemCap\nopen Verif.GoSem (GM wrap LoopR)\n\n")
+	if tag == "bufiox" {
+		out.WriteString("  The methods of bufiox/defaultbuf.go translated from the typed AST into the Go semantics library Verif.GoSemCap\n")
+		out.WriteString("  (slices with capacity); Verif/Lemmas/Funcs/Bufiox{R,W}.lean prove them equal to Model/Reader.lean and\n  Model/Writer.lean. Regenerated on every run.\n-/\n")
+	} else {
+		fmt.Fprintf(&out, "  %s translated from the typed AST into the Go semantics library Verif.GoSemCap (slices with\n  capacity); the lemma file Verif/Lemmas/Funcs/BufioxRSD.lean proves it simulates the model. Regenerated on every run.\n-/\n", what)
+	}
+	fmt.Fprintf(&out, "import Verif.Base.GoSemCap\nset_option linter.unusedVariables false\nnamespace %s\nopen Verif Verif.GoSemCap\nopen Verif.GoSem (GM wrap LoopR)\n\n", ns)
 	out.Write(body.Bytes())
 	fmt.Fprintf(&out, "/-- functions translated in this run -/\ndef translated : List String := [%s]\n", quoteList(ok))
 	fmt.Fprintf(&out, "/-- listed functions the translator refused (their definitions are absent) -/\ndef unsupported : List String := [%s]\n", quoteList(bad))
-	out.WriteString("\nend Verif.BufioxGen\n")
+	fmt.Fprintf(&out, "\nend %s\n", ns)
 	if path == "-" {
 		os.Stdout.Write(out.Bytes())
 		return
@@ -1636,5 +1713,5 @@ func (c *ctx) emitBufiox(repo, path string) {
 		}
 		verb = "rewritten"
 	}
-	fmt.Printf("bufiox: %s (%d translated, %d unsupported)\n", verb, len(ok), len(bad))
+	fmt.Printf("%s: %s (%d translated, %d unsupported)\n", tag, verb, len(ok), len(bad))
 }
